@@ -281,4 +281,252 @@ theorem machine_correctArgs (env : Env) (chk : Bool) : ∀ (args : List Expr), a
     rw [machine_correct env chk a h'.1, machine_correctArgs env chk as h'.2]
     simp [concatArgs, argOffs, List.append_assoc]
 end
+/-! ## offsets stay sorted and inside the buffer -/
+
+/-- stack entries are sorted and inside the buffer -/
+def Inv (s : St) : Prop := s.stk.Pairwise (· ≤ ·) ∧ ∀ x ∈ s.stk, x ≤ s.buf.length
+
+theorem joinArgs_ok (fargs : List Char) : ∀ (l : List Nat), l.Pairwise (· ≤ ·) → (∀ x ∈ l, x ≤ fargs.length) →
+    ∃ t, joinArgs fargs l = .ok t
+  | [], _, _ => ⟨[], by simp [joinArgs]⟩
+  | [_], _, _ => ⟨[], by simp [joinArgs]⟩
+  | a :: b :: rest, hp, hb => by
+    have hab : a ≤ b := List.rel_of_pairwise_cons hp (List.mem_cons_self)
+    have hbl : b ≤ fargs.length := hb b (by simp)
+    have hrec := joinArgs_ok fargs (b :: rest) (List.Pairwise.of_cons hp) (fun x hx => hb x (by simp [hx]))
+    obtain ⟨t, ht⟩ := hrec
+    have hc : ¬ (a > b ∨ b > fargs.length) := by omega
+    rw [joinArgs]
+    simp only [hc, if_false]
+    by_cases he : rest.isEmpty = true
+    · simp [he]
+    · simp only [he, ht]
+      exact ⟨_, rfl⟩
+
+theorem pairwise_append_single (l : List Nat) (n : Nat) (hp : l.Pairwise (· ≤ ·)) (hb : ∀ x ∈ l, x ≤ n) :
+    (l ++ [n]).Pairwise (· ≤ ·) := by
+  rw [List.pairwise_append]
+  refine ⟨hp, by simp, ?_⟩
+  intro a ha b hb'
+  simp at hb'; subst hb'; exact hb a ha
+
+theorem getLast_mem {l : List Nat} {e : Nat} (h : l.getLast? = some e) : e ∈ l := by
+  exact List.mem_of_getLast? h
+
+theorem inv_dropLast {buf buf' : List Char} {stk : List Nat} (h : Inv ⟨buf, stk⟩) (hl : buf.length ≤ buf'.length) :
+    Inv ⟨buf', stk.dropLast⟩ := by
+  obtain ⟨hp, hb⟩ := h
+  refine ⟨hp.sublist (List.dropLast_sublist _), ?_⟩
+  intro x hx
+  have := hb x (List.dropLast_subset _ hx)
+  simp only at this ⊢; omega
+
+theorem inv_grow {buf buf' : List Char} {stk : List Nat} (h : Inv ⟨buf, stk⟩) (hl : buf.length ≤ buf'.length) :
+    Inv ⟨buf', stk⟩ := by
+  obtain ⟨hp, hb⟩ := h
+  refine ⟨hp, ?_⟩
+  intro x hx
+  have := hb x hx
+  simp only at this ⊢; omega
+
+theorem inv_push {buf : List Char} {stk : List Nat} (t : List Char) (h : Inv ⟨buf, stk⟩) :
+    Inv ⟨buf ++ t, stk ++ [buf.length]⟩ := by
+  obtain ⟨hp, hb⟩ := h
+  refine ⟨pairwise_append_single _ _ hp hb, ?_⟩
+  intro x hx
+  simp only [List.mem_append, List.mem_singleton] at hx
+  simp only [List.length_append]
+  rcases hx with hx | rfl
+  · have := hb x hx; simp only at this; omega
+  · omega
+
+theorem last_le {buf : List Char} {stk : List Nat} {e : Nat} (h : Inv ⟨buf, stk⟩) (he : stk.getLast? = some e) :
+    e ≤ buf.length := h.2 e (getLast_mem he)
+
+theorem applyAct_push_like (_a : Act) (s : St) (h : Inv s) (e : Nat) (he : s.stk.getLast? = some e) :
+    ¬ e > s.buf.length := by
+  have := last_le (buf := s.buf) (stk := s.stk) h he
+  omega
+
+theorem applyAct_inv_simple (a : Act) (s : St) (h : Inv s) (hf : ∀ i n c, a ≠ .func i n c) :
+    (∀ s', applyAct a s = .ok s' → Inv s') ∧ (∀ m, applyAct a s ≠ .panic m) := by
+  obtain ⟨buf, stk⟩ := s
+  cases a with
+  | push t =>
+    refine ⟨?_, by simp [applyAct]⟩
+    intro s' hs; simp only [applyAct, Res.ok.injEq] at hs; subst hs; exact inv_push t h
+  | binop op =>
+    simp only [applyAct]
+    cases he : stk.getLast? with
+    | none => simp
+    | some e =>
+      have hle := last_le h he
+      have : ¬ e > buf.length := by omega
+      simp only [this, if_false]
+      refine ⟨?_, by simp⟩
+      intro s' hs; simp only [Res.ok.injEq] at hs; subst hs
+      exact inv_dropLast h (by simp; omega)
+  | pre c =>
+    simp only [applyAct]
+    cases he : stk.getLast? with
+    | none => simp
+    | some e =>
+      have hle := last_le h he
+      have : ¬ e > buf.length := by omega
+      simp only [this, if_false]
+      refine ⟨?_, by simp⟩
+      intro s' hs; simp only [Res.ok.injEq] at hs; subst hs
+      exact inv_grow h (by simp [insertAt]; omega)
+  | percent =>
+    refine ⟨?_, by simp [applyAct]⟩
+    intro s' hs; simp only [applyAct, Res.ok.injEq] at hs; subst hs
+    exact inv_grow h (by simp)
+  | paren =>
+    simp only [applyAct]
+    cases he : stk.getLast? with
+    | none => simp
+    | some e =>
+      have hle := last_le h he
+      have : ¬ e > buf.length := by omega
+      simp only [this, if_false]
+      refine ⟨?_, by simp⟩
+      intro s' hs; simp only [Res.ok.injEq] at hs; subst hs
+      exact inv_grow h (by simp [insertAt]; omega)
+  | sum =>
+    simp only [applyAct]
+    cases he : stk.getLast? with
+    | none => simp
+    | some e =>
+      have hle := last_le h he
+      have : ¬ e > buf.length := by omega
+      simp only [this, if_false]
+      refine ⟨?_, by simp⟩
+      intro s' hs; simp only [Res.ok.injEq] at hs; subst hs
+      exact inv_grow h (by simp; omega)
+  | spaces c n =>
+    simp only [applyAct]
+    cases he : stk.getLast? with
+    | none => simp
+    | some e =>
+      have hle := last_le h he
+      have : ¬ (n > 0 ∧ e > buf.length) := by omega
+      simp only [this, if_false]
+      refine ⟨?_, by simp⟩
+      intro s' hs; simp only [Res.ok.injEq] at hs; subst hs
+      exact inv_grow h (by simp; omega)
+  | nop =>
+    refine ⟨?_, by simp [applyAct]⟩
+    intro s' hs; simp only [applyAct, Res.ok.injEq] at hs; subst hs; exact h
+  | func i n c => exact absurd rfl (hf i n c)
+
+theorem ite_bool_false {α : Type} (b : Bool) (hb : b = false) (x y : α) :
+    (if b = true then x else y) = y := by simp [hb]
+
+theorem applyAct_inv_func (iftab argc : Nat) (chk : Bool) (s : St) (h : Inv s) :
+    (∀ s', applyAct (.func iftab argc chk) s = .ok s' → Inv s') ∧
+    (∀ m, applyAct (.func iftab argc chk) s = .panic m → m = "FTAB index") := by
+  obtain ⟨buf, stk⟩ := s
+  obtain ⟨hp, hb⟩ := h
+  simp only at hb
+  unfold applyAct
+  simp only
+  by_cases hlen : stk.length < argc
+  · simp [hlen]
+  simp only [hlen, if_false]
+  by_cases hpos : argc > 0
+  · simp only [hpos, if_true]
+    have hsplit : stk = stk.take (stk.length - argc) ++ stk.drop (stk.length - argc) := (List.take_append_drop _ _).symm
+    generalize hk : stk.take (stk.length - argc) = keep at *
+    generalize ha : stk.drop (stk.length - argc) = args at *
+    have halen : args.length = argc := by rw [← ha]; simp; omega
+    rw [hsplit] at hp hb
+    rw [List.pairwise_append] at hp
+    obtain ⟨hpk, hpa, hka⟩ := hp
+    generalize hs0 : args.headD 0 = start0
+    cases args with
+    | nil => simp at halen; omega
+    | cons start rest =>
+      simp only [List.headD_cons] at hs0
+      subst hs0
+      have hstart_le : ∀ x ∈ start :: rest, start ≤ x := by
+        intro x hx
+        rcases List.mem_cons.mp hx with rfl | hx
+        · exact Nat.le_refl _
+        · exact List.rel_of_pairwise_cons hpa hx
+      have hany : (start :: rest).any (· < start) = false := by
+        rw [List.any_eq_false]; intro x hx; have := hstart_le x hx; simp; omega
+      have hsb : start ≤ buf.length := hb start (by simp)
+      have hnot : ¬ start > buf.length := by omega
+      simp only [ite_bool_false _ hany]
+      simp only [hnot, if_false]
+      cases hn : ftabName iftab with
+      | none => cases chk <;> simp
+      | some name =>
+        simp only
+        have hj : ∃ t, joinArgs (buf.drop start) ((start :: rest).map (· - start) ++ [(buf.drop start).length]) = .ok t := by
+          apply joinArgs_ok
+          · apply pairwise_append_single
+            · exact (List.Pairwise.map (· - start) (fun a b hab => Nat.sub_le_sub_right hab start) hpa)
+            · intro x hx
+              obtain ⟨y, hy, rfl⟩ := List.mem_map.mp hx
+              have := hb y (by simp only [List.mem_append]; exact Or.inr hy)
+              simp only [List.length_drop]; omega
+          · intro x hx
+            simp only [List.mem_append, List.mem_singleton] at hx
+            rcases hx with hx | rfl
+            · obtain ⟨y, hy, rfl⟩ := List.mem_map.mp hx
+              have := hb y (by simp only [List.mem_append]; exact Or.inr hy)
+              simp only [List.length_drop]; omega
+            · exact Nat.le_refl _
+        obtain ⟨t, ht⟩ := hj
+        simp only [ht]
+        refine ⟨?_, by simp⟩
+        intro s' hs; simp only [Res.ok.injEq] at hs; subst hs
+        have htl : (buf.take start).length = start := by simp; omega
+        refine ⟨?_, ?_⟩
+        · simp only [htl]
+          apply pairwise_append_single _ _ hpk
+          intro x hx; exact hka x hx start (by simp)
+        · intro x hx
+          simp only [htl, List.mem_append, List.mem_singleton] at hx
+          simp only [List.length_append, htl]
+          rcases hx with hx | rfl
+          · have := hka x hx start (by simp); omega
+          · omega
+  · simp only [hpos, if_false]
+    cases hn : ftabName iftab with
+    | none => simp
+    | some name =>
+      simp only
+      refine ⟨?_, by simp⟩
+      intro s' hs; simp only [Res.ok.injEq] at hs; subst hs
+      have := inv_push (buf := buf) (stk := stk) (name ++ ['(', ')']) ⟨hp, hb⟩
+      simpa [List.append_assoc] using this
+
+/-- every edit keeps the offsets sorted and inside the buffer, and the only panic an edit can raise from such a
+    state is the unchecked `FTAB[iftab]` index: `split_off`, `insert`, `*s -= start` and the `fargs[..]` slices
+    never fail -/
+theorem applyAct_inv (a : Act) (s : St) (h : Inv s) :
+    (∀ s', applyAct a s = .ok s' → Inv s') ∧ (∀ m, applyAct a s = .panic m → m = "FTAB index") := by
+  by_cases hf : ∃ i n c, a = .func i n c
+  · obtain ⟨i, n, c, rfl⟩ := hf
+    exact applyAct_inv_func i n c s h
+  · have hf' : ∀ i n c, a ≠ .func i n c := fun i n c he => hf ⟨i, n, c, he⟩
+    have := applyAct_inv_simple a s h hf'
+    exact ⟨this.1, fun m hm => absurd hm (this.2 m)⟩
+
+theorem runActs_inv (as : List Act) (s : St) (h : Inv s) :
+    (∀ s', runActs as s = .ok s' → Inv s') ∧ (∀ m, runActs as s = .panic m → m = "FTAB index") := by
+  induction as generalizing s with
+  | nil => simp [runActs]; exact h
+  | cons a as ih =>
+    have ha := applyAct_inv a s h
+    simp only [runActs]
+    cases hr : applyAct a s with
+    | ok s1 => simp only; exact ih s1 (ha.1 s1 hr)
+    | err e => simp
+    | panic m => simp only [Res.panic.injEq]; exact ⟨by simp, fun m' hm => by rw [← hm]; exact ha.2 m hr⟩
+    | outOfFuel => simp
+
+theorem inv_init : Inv ⟨[], []⟩ := ⟨List.Pairwise.nil, by simp⟩
 end Formula
